@@ -26,7 +26,8 @@ Print Assumptions C15_obs_eqb.
 
 (* ---- the clauses, stated on the model's own state.  Ready w: the reactor is at rest (not running, no
    pending calls, no selectables, never really stopped, no run() in progress) and the harness's log of
-   executed calls and of re-entrant attempts is empty.  WHO reactor.stop is (the stock method or any instance-level override) and
+   executed calls and of re-entrant attempts is empty.  hs: the start-up hooks (reactor.callWhenRunning) somebody
+   registered before run() is entered - each calls reactor.stop(), schedules a delayed call, or does nothing.  WHO reactor.stop is (the stock method or any instance-level override) and
    which handlers are installed (SIG_DFL, SIG_IGN, any callable, or the disposition getsignal() reports as
    None) is arbitrary. ---- *)
 
@@ -34,14 +35,14 @@ Print Assumptions C15_obs_eqb.
    one of {timeout call, Deferred fires, stop request} ran, each of those that ran was due at the earliest of
    their three instants (simultaneous ones in the order the reactor chose), and run() reports TimeoutError
    if the timeout call ran, else the Deferred's own result if it fired, else NoResultError *)
-Theorem C15_result : forall batch T f w, Ready w -> sp_junk (w_sp w) = [] ->
-  Allowed T f (w_ran (snd (run1 batch T f w))) (fst (run1 batch T f w)).
+Theorem C15_result : forall hs batch T f w, Ready w -> sp_junk (w_sp w) = [] ->
+  Allowed (stopped_early hs) T f (w_ran (snd (run1 hs batch T f w))) (fst (run1 hs batch T f w)).
 Proof. exact clause_result. Qed.
 Print Assumptions C15_result.
 
 (* without ties and without a stop request: value / failure before the timeout, TimeoutError after it or never *)
-Theorem C15_result_untied : forall batch T f w r, Ready w -> sp_junk (w_sp w) = [] ->
-  f_stop f = None -> f_stop_now f = false -> r = fst (run1 batch T f w) ->
+Theorem C15_result_untied : forall hs batch T f w r, Ready w -> sp_junk (w_sp w) = [] -> stopped_early hs = false ->
+  f_stop f = None -> f_stop_now f = false -> r = fst (run1 hs batch T f w) ->
   (forall how o, f_shape f = Sync how o -> r = result_of o)
   /\ (forall t o, f_shape f = Later t o -> t < T -> r = result_of o)
   /\ (forall t o, f_shape f = Later t o -> T < t -> r = Raised ETimeout)
@@ -50,12 +51,21 @@ Proof. exact clause_result_untied. Qed.
 Print Assumptions C15_result_untied.
 
 (* the reactor is stopped strictly before the timeout and before the Deferred fires: NoResultError *)
-Theorem C15_result_stopped : forall batch T f w s, Ready w -> sp_junk (w_sp w) = [] ->
+Theorem C15_result_stopped : forall hs batch T f w s, Ready w -> sp_junk (w_sp w) = [] -> stopped_early hs = false ->
   is_sync f = false -> f_stop_now f = false -> f_stop f = Some s -> s < T ->
   (forall t o, f_shape f = Later t o -> s < t) ->
-  fst (run1 batch T f w) = Raised ENoResult.
+  fst (run1 hs batch T f w) = Raised ENoResult.
 Proof. exact clause_result_stopped. Qed.
 Print Assumptions C15_result_stopped.
+
+(* interrupt point "while the reactor starts up, before the function has been called": a start-up hook registered
+   before run() calls reactor.stop().  Every start-up hook still fires and the function is still called: what it
+   returns synchronously is the result; a Deferred never gets to fire - NoResultError, whatever its timing *)
+Theorem C15_result_early : forall hs batch T f w, Ready w -> sp_junk (w_sp w) = [] -> stopped_early hs = true ->
+  (forall how o, f_shape f = Sync how o -> fst (run1 hs batch T f w) = result_of o)
+  /\ (is_sync f = false -> fst (run1 hs batch T f w) = Raised ENoResult).
+Proof. exact clause_result_early. Qed.
+Print Assumptions C15_result_early.
 
 (* re-entrant use is refused and changes nothing, whatever the state ... *)
 Theorem C15_reentry : forall iters batch T f w, w_flag w = true -> run iters batch T f w = (Raised EReentry, w).
@@ -66,28 +76,28 @@ Print Assumptions C15_reentry.
    caller swallows the refusal and tries again), and those made by its delayed calls at any instant of the spin,
    through the same or another Spinner: each is refused and changes nothing; all the function's own attempts
    are accounted for; the flag is reset afterwards *)
-Theorem C15_reentry_inside : forall batch T f w, Ready w -> sp_junk (w_sp w) = [] ->
-  (forall b, In b (w_reentry (snd (run1 batch T f w))) -> b = true)
-  /\ length (f_reenter f) <= length (w_reentry (snd (run1 batch T f w)))
-  /\ w_flag (snd (run1 batch T f w)) = false.
+Theorem C15_reentry_inside : forall hs batch T f w, Ready w -> sp_junk (w_sp w) = [] ->
+  (forall b, In b (w_reentry (snd (run1 hs batch T f w))) -> b = true)
+  /\ length (f_reenter f) <= length (w_reentry (snd (run1 hs batch T f w)))
+  /\ w_flag (snd (run1 hs batch T f w)) = false.
 Proof. exact clause_reentry. Qed.
 Print Assumptions C15_reentry_inside.
 
 (* junk that has not been cleared: refused, nothing happens *)
-Theorem C15_stale_junk : forall batch T f w, Ready w -> sp_junk (w_sp w) <> [] ->
-  run1 batch T f w = (Raised EStaleJunk, w).
+Theorem C15_stale_junk : forall hs batch T f w, Ready w -> sp_junk (w_sp w) <> [] ->
+  run1 hs batch T f w = (Raised EStaleJunk, reg_hooks 0 hs w).
 Proof. exact clause_stale. Qed.
 Print Assumptions C15_stale_junk.
 
 (* on every exit the reactor is not running, holds no delayed call and no selectable, the re-entrancy flag
    is reset; every call / selectable the function left either ran or is in junk, exactly once; the
    spinner's own timeout call is junk only when the reactor was stopped first *)
-Theorem C15_clean : forall batch T f w, Ready w ->
-  let w' := snd (run1 batch T f w) in
+Theorem C15_clean : forall hs batch T f w, Ready w ->
+  let w' := snd (run1 hs batch T f w) in
   running (w_r w') = false /\ queue (w_r w') = [] /\ readers (w_r w') = [] /\ w_flag w' = false
   /\ (sp_junk (w_sp w) = [] ->
-      Permutation (filter nt (w_ran w') ++ filter nt (sp_junk (w_sp w'))) (sched_tokens f)
-      /\ (In tok_timeout (sp_junk (w_sp w')) -> fst (run1 batch T f w) = Raised ENoResult)).
+      Permutation (filter nt (w_ran w') ++ filter nt (sp_junk (w_sp w'))) (hook_tokens 0 hs ++ sched_tokens f)
+      /\ (In tok_timeout (sp_junk (w_sp w')) -> fst (run1 hs batch T f w) = Raised ENoResult)).
 Proof. exact clause_clean. Qed.
 Print Assumptions C15_clean.
 
@@ -96,8 +106,8 @@ Print Assumptions C15_clean.
    were before the call, whatever they were and whatever the reactor and the function installed meanwhile.
    The one exception is a disposition that getsignal() reported as None: signal.signal() refuses to install
    None, nobody can put it back once the reactor has taken the signal over, and nothing is claimed for it *)
-Theorem C15_restored : forall batch T f w, Ready w ->
-  let w' := snd (run1 batch T f w) in
+Theorem C15_restored : forall hs batch T f w, Ready w ->
+  let w' := snd (run1 hs batch T f w) in
   w_stop w' = w_stop w /\ really_stopped (w_r w') = false
   /\ forall s, In s reactor_signals -> getsig s (w_sig w) <> h_none -> getsig s (w_sig w') = getsig s (w_sig w).
 Proof. exact clause_restored. Qed.
@@ -136,7 +146,9 @@ Print Assumptions C15_table_signals_distinct.
 (* non-vacuity: a failing run, then a Deferred firing exactly at the timeout tick (the oracle lets it win),
    then a run that leaves junk and is stopped, a refused run, and a run after clear_junk; the function re-enters
    twice in run 2 and three times in run 5 (same / another Spinner), a delayed call re-enters in run 3 (in run 2 the
-   re-entering delayed call is due at the timeout tick and is cancelled as junk instead);
+   re-entering delayed call is due at the timeout tick and is cancelled as junk instead); start-up hooks: run 5 is
+   stopped while starting up but returns its synchronous value, run 6 is stopped while starting up with a Deferred
+   that would have fired in time: NoResultError, everything left is junk (the refused run 4 never fires its hook);
    reactor.stop is overridden on the instance before the 2nd run, reset before the 4th, overridden before the 5th;
    in the 5th SIGTERM has a handler getsignal() reports as None: the run is unaffected, the other two are restored *)
 Example C15_example :
@@ -145,13 +157,15 @@ Example C15_example :
   let f2 := mkFn Never [(1, Some false); (9, None)] 2 (Some 3) false [] (Some (sig_int, 8)) in
   let f3 := mkFn (Sync 0 (Succeed 4)) [] 0 None false [true; false; true] None in
   let i := mkInput [2] false
-             [mkRun true [0;0;0] None 5 f0; mkRun true [3;1;4] (Some 2) 5 f1;
-              mkRun true [2;0;0] None 5 f2; mkRun false [0;0;0] (Some 0) 5 f3;
-              mkRun true [1;h_none;3] (Some 1) 5 f3] in
+             [mkRun true [0;0;0] [] None 5 f0; mkRun true [3;1;4] [HNoop] (Some 2) 5 f1;
+              mkRun true [2;0;0] [] None 5 f2; mkRun false [0;0;0] [HStop] (Some 0) 5 f3;
+              mkRun true [1;h_none;3] [HSched 9; HStop] (Some 1) 5 f3;
+              mkRun true [0;0;0] [HSched 1; HStop; HNoop] None 5 f1] in
   wf i /\ spec_okb i (model i) = true
-  /\ map o_res (model i) = [Raised (EUser 1); Ok 6; Raised ENoResult; Raised EStaleJunk; Ok 4]
-  /\ map o_junk (model i) = [[]; [10]; [0; 11; 100; 101]; [0; 11; 100; 101]; []]
-  /\ map o_sigs (model i) = [[0;0;0]; [3;1;4]; [2;0;0]; [0;0;0]; [1;9;3]]
-  /\ map o_reentry (model i) = [[]; [true; true]; [true]; []; [true; true; true]]
-  /\ map o_stop (model i) = [0; 2; 2; 0; 1] /\ map o_stopped (model i) = [false; false; false; false; false].
+  /\ map o_res (model i) = [Raised (EUser 1); Ok 6; Raised ENoResult; Raised EStaleJunk; Ok 4; Raised ENoResult]
+  /\ map o_junk (model i) = [[]; [10]; [0; 11; 100; 101]; [0; 11; 100; 101]; [200]; [0; 1; 10; 200]]
+  /\ map o_sigs (model i) = [[0;0;0]; [3;1;4]; [2;0;0]; [0;0;0]; [1;9;3]; [0;0;0]]
+  /\ map o_reentry (model i) = [[]; [true; true]; [true]; []; [true; true; true]; [true; true]]
+  /\ map o_stop (model i) = [0; 2; 2; 0; 1; 1]
+  /\ map o_stopped (model i) = [false; false; false; false; false; false].
 Proof. vm_compute. repeat split; repeat constructor. Qed.
